@@ -1,6 +1,7 @@
 SPECIFICATION GenSpec
 CONSTANTS WakeAll = TRUE
  NotifyOnFail = TRUE
+ NarrowLock = FALSE
  GenLen = 12
  MaxReaders = 6
  Duties = {"d1", "d2"}
